@@ -767,8 +767,10 @@ package compiler
 //@   at-call "compiler.(*AnonymousStructsToNamed).processType" branch: $arg0 == pass && $arg3 == old(def.Disjunction.Branches)[$i + 1]
 //@   at-call "compiler.(*AnonymousStructsToNamed).processType" let slot := def.Disjunction.Branches
 //@   ensures  same: result == def
+//@   ensures  descended: ncalls("compiler.(*AnonymousStructsToNamed).processType") >= old(ncalls("compiler.(*AnonymousStructsToNamed).processType")) + old(len(def.Disjunction.Branches))
 //@   loop 0:
 //@     invariant stored: $i >= 0 ==> $slot[$i] == lastres("compiler.(*AnonymousStructsToNamed).processType", 0) && $slot[$i].Kind != ast.KindStruct
+//@     invariant counted: ncalls("compiler.(*AnonymousStructsToNamed).processType") >= old(ncalls("compiler.(*AnonymousStructsToNamed).processType")) + $i + 1
 //
 //@ func (*AnonymousStructsToNamed).processObject
 //@   property C06
